@@ -204,3 +204,28 @@ Proof.
   intros Hsim H10 Hp10 Hs El Hsl Hd Hn. eapply equiv_engine_rel; eauto.
   destruct ic; [rewrite El; apply chr_bounds_icase; assumption|apply chr_bounds_plain].
 Qed.
+
+(* the fast path and the general engine give the same observable answer *)
+Theorem fastpath_engine ic p rs cs lcs nb ne d n :
+  rstr_simple ic p = Some rs ->
+  ~ In 10 (chars cs) -> ~ In 10 p -> Forall scalar cs -> r_str rs = chars lcs -> Forall scalar lcs ->
+  (1 <= d)%nat -> (1 <= n)%nat ->
+  exists r, rset_make [Some p] (cflags ic) = Ok (Some r) /\
+    rset_find_d d r (chars cs ++ [10]) n (eflags nb ne) =
+    match rstr_find rs (chars cs ++ [10]) nb ne with
+    | RstrDefs.Found so eo => (Ok (0%Z, rstr_groups n so eo), 0)
+    | RstrDefs.NotFound => (Ok ((-1)%Z, []), 0)
+    | RstrDefs.OOB => (OOB SOther, 0)
+    end.
+Proof.
+  intros Hsim H10 Hp10 Hs El Hsl Hd Hn.
+  destruct (equiv_engine ic p rs cs lcs nb ne d n Hsim H10 Hp10 Hs El Hsl Hd Hn) as (r & Hr & Hf).
+  exists r. split; [exact Hr|]. rewrite Hf.
+  assert (H0 : ~ In 0 (chars cs)).
+  { intro Hin. pose proof (chars_nonul cs Hs) as Hnn. unfold nonul in Hnn. rewrite Forall_forall in Hnn.
+    specialize (Hnn 0 Hin). unfold byte_ok in Hnn. lia. }
+  rewrite (equiv_spec_pat ic p rs (chars cs) nb ne Hsim H0 H10 Hp10).
+  unfold engine_answer, spec_res. cbn [spat_of p_lit].
+  destruct (spec_find _ _ _ _); [|reflexivity].
+  destruct n as [|m]; [lia|]. cbn [rstr_groups]. replace (S m - 1)%nat with m by lia. reflexivity.
+Qed.
